@@ -10,6 +10,7 @@ use crate::engine::{Failure, Outcome};
 use crate::hist::Hist;
 
 pub mod agenda;
+pub mod comp;
 pub mod fault;
 pub mod flow;
 pub mod sink;
